@@ -60,7 +60,7 @@ OpAscii(op) == IF Len(op) = 1 THEN TRUE
                ELSE IsAsciiT(op[2])
 
 Step == /\ ctxi # 0 /\ Len(hist) < Depth
-        /\ \E op \in PathOps : \E X2 \in AltsOf(ab, X, op) :
+        /\ \E op \in PathOps : \E X2 \in AltsOf(ab, X, op, mayDot) :
              LET adm  == AdmissibleStep(Ctx, mayDot, ab, X2)
                  rec  == [op |-> op[1], arg |-> IF Len(op) > 1 /\ op[1] # "sym_append" THEN op[2] ELSE <<>>,
                           args |-> IF op[1] = "sym_append" THEN op[2] ELSE <<>>,
